@@ -3,6 +3,10 @@ package hx
 
 import (
 	"bufio"
+	"bytes"
+	"context"
+	"os/exec"
+	"time"
 	"encoding/hex"
 	"fmt"
 	"math/big"
@@ -159,3 +163,57 @@ func (w *Writer) Close() error {
 }
 
 func Fail(key, text string) string { return "FAIL:" + key + ":" + text }
+
+// ---------------------------------------------------------------- sub-process isolation
+// A panic in a goroutine started by the code under test cannot be recovered by the harness: such
+// scenarios run in a child process (`driver sub <name> <arg>`).
+
+// RunSub returns the child's stdout and a class: "ok", "P" (the child died with a Go panic /
+// non-zero exit), "H" (timeout).
+func RunSub(name, arg string, timeout time.Duration) (string, string) {
+	ctx, cancel := context.WithTimeout(context.Background(), timeout)
+	defer cancel()
+	cmd := exec.CommandContext(ctx, os.Args[0], "sub", name, arg)
+	var out, errb bytes.Buffer
+	cmd.Stdout = &out
+	cmd.Stderr = &errb
+	err := cmd.Run()
+	if ctx.Err() != nil {
+		return out.String(), "H"
+	}
+	if err != nil {
+		LastPanic = firstPanicLine(errb.String())
+		return out.String(), "P"
+	}
+	return out.String(), "ok"
+}
+
+// RunSubP is RunSub returning the panic line instead of storing it (safe for concurrent use).
+func RunSubP(name, arg string, timeout time.Duration) (string, string, string) {
+	ctx, cancel := context.WithTimeout(context.Background(), timeout)
+	defer cancel()
+	cmd := exec.CommandContext(ctx, os.Args[0], "sub", name, arg)
+	var out, errb bytes.Buffer
+	cmd.Stdout = &out
+	cmd.Stderr = &errb
+	err := cmd.Run()
+	if ctx.Err() != nil {
+		return out.String(), "H", ""
+	}
+	if err != nil {
+		return out.String(), "P", firstPanicLine(errb.String())
+	}
+	return out.String(), "ok", ""
+}
+
+func firstPanicLine(s string) string {
+	for _, l := range strings.Split(s, "\n") {
+		if strings.HasPrefix(l, "panic:") || strings.HasPrefix(l, "fatal error:") {
+			return l
+		}
+	}
+	if len(s) > 200 {
+		return s[:200]
+	}
+	return s
+}
